@@ -59,6 +59,7 @@ EXC_PARENTS = {
     "IOError": "OSError",       # alias in Python 3
     "OSError": "Exception",
     "Empty": "Exception",
+    "CallbackError": "Exception",
     "Exception": "BaseException",
     "KeyboardInterrupt": "BaseException",
 }
@@ -230,12 +231,14 @@ class Path(object):
         return True
 
     # -- obligations ----------------------------------------------------
-    def oblige(self, name, goal, info=None, kind="assert", assume_after=True, uses=None):
+    def oblige(self, name, goal, info=None, kind="assert", assume_after=True, uses=None, drop=None):
         if isinstance(goal, bool):
             goal = z3.BoolVal(goal)
         hyps = self.pc
         if uses is not None:
             hyps = [h for h in self.pc if self.tags.get(h.get_id()) is None or self.tags[h.get_id()] in uses]
+        if drop:
+            hyps = [h for h in hyps if self.tags.get(h.get_id()) not in drop]
         self.obligations.append(Obligation(name, hyps, goal, info, kind))
         if assume_after:
             self.pc.append(goal)
